@@ -769,7 +769,7 @@ fn main() {
         lens.push(r.range(48, 330) as usize);
     }
     if a.thorough() || a.search {
-        lens.extend([4096, 16383, 16384, 70000]);
+        lens.extend([2048, 4095, 4096, 8191, 8192]); // longer messages overflow Coq's parser stack (one string literal per hash input)
     }
     let mut jl = std::collections::BTreeMap::new();
     for l in &lens {
